@@ -129,7 +129,7 @@ def eval_case(case):
             delete, dontcare = model_delete(outroot, rows)
             before = statecheck.full_snapshot(pr.root)
             before_out = statecheck.full_snapshot(outside) if os.path.isdir(outside) else {}
-            argv = ["gc"] + {"gc": [], "dry": ["-n"], "verbose": ["-v"], "dry-long": ["--dry-run"]}[mode]
+            argv = ["gc"] + {"gc": [], "dry": ["-n"], "verbose": ["-v"], "dry-long": ["--dry-run"], "dry-verbose": ["-n", "-v"], "verbose-long": ["--verbose"]}[mode]
             r = pr.cond(argv, timeout=120)
             after = statecheck.full_snapshot(pr.root)
             after_out = statecheck.full_snapshot(outside) if os.path.isdir(outside) else {}
@@ -149,7 +149,7 @@ def eval_case(case):
             def under(p, roots):
                 return any(p == r0 or p.startswith(r0 + os.sep) for r0 in roots)
 
-            if mode in ("dry", "dry-long"):
+            if mode in ("dry", "dry-long", "dry-verbose"):
                 if before != after:
                     ch = sorted(k for k in set(before) | set(after) if before.get(k) != after.get(k))[:5]
                     out["violations"].append({"key": "C13:dry-run-changed-something", "msg": "gc --dry-run changed %s" % ch, "witness": W})
@@ -192,7 +192,7 @@ def eval_case(case):
                 if changed or new:
                     out["violations"].append({"key": "C13:gc-modified-files", "msg": "gc changed %s / created %s" % (changed[:5], new[:5]), "witness": W})
                     break
-                if mode == "verbose":
+                if mode in ("verbose", "verbose-long"):
                     listed = {os.path.normpath(l[len("Deleting "):]) for l in r.out.splitlines() if l.startswith("Deleting ")}
                     listed = {p for p in listed if not under(p, dc_rel)}
                     if listed != del_rel:
@@ -209,7 +209,7 @@ def main(tier, n=None):
     total = n or (200 if tier == "quick" else 3000)
     cases = []
     for i in range(total):
-        modes = rng.choice([["dry", "gc"], ["dry-long", "verbose"], ["gc"], ["verbose", "dry"], ["dry", "gc", "gc"]])
+        modes = rng.choice([["dry", "gc"], ["dry-long", "verbose"], ["gc"], ["verbose", "dry"], ["dry", "gc", "gc"], ["dry-verbose", "gc"], ["dry-verbose", "verbose-long"]])
         cases.append({"seed": rng.randrange(1 << 30), "nruns": rng.randint(1, 4), "modes": modes})
     cli.warm()
     res = common.parallel_map(eval_case, cases, timeout=900)
